@@ -167,6 +167,38 @@ func init() {
 			}{{1e19, "10000000000000000000"}, {float64(1 << 53), "9007199254740992"}, {1e19 + 2048, "10000000000000002048"}, {float32(16777216), "16777216"}, {json.Number("1e19"), "10000000000000000000"}, {"1e3", "1000"}, {json.Number("12.50e1"), "125"}} {
 				c.Add(map[string]any{"op": "abi.encode", "params": paramsJSON([]*absTy{u256}), "expect": []any{map[string]any{"i": good.z}}, "style": "go", "input": extFromGo([]any{good.v})}, "accept.floatlike")
 			}
+			// Go float64 / float32 / *big.Float inputs at powers of two around every integer boundary
+			for _, tt := range []*absTy{{Kind: "int", M: 64, Name: "v"}, {Kind: "int", M: 72, Name: "v"}, {Kind: "int", M: 256, Name: "v"}, {Kind: "uint", M: 64, Name: "v"}, {Kind: "uint", M: 256, Name: "v"}, {Kind: "int", M: 32, Name: "v"}, {Kind: "uint", M: 8, Name: "v"}} {
+				lo, hi := intBounds(tt)
+				for _, k := range []uint{0, 7, 8, 31, 32, 52, 53, 62, 63, 64, 65, 71, 127, 255, 256} {
+					for _, neg := range []bool{false, true} {
+						for _, delta := range []int64{0, -1} {
+							z := new(big.Int).Add(pow2(k), big.NewInt(delta))
+							if neg {
+								z.Neg(z)
+							}
+							f, acc := new(big.Float).SetInt(z).Float64()
+							if acc != big.Exact {
+								continue
+							}
+							var inputs []any
+							inputs = append(inputs, f, new(big.Float).SetPrec(300).SetInt(z))
+							if f32 := float32(f); float64(f32) == f {
+								inputs = append(inputs, f32)
+							}
+							for _, in := range inputs {
+								req := map[string]any{"op": "abi.encode", "params": paramsJSON([]*absTy{tt}), "style": "go", "input": extFromGo([]any{in})}
+								if z.Cmp(lo) >= 0 && z.Cmp(hi) <= 0 {
+									req["expect"] = []any{map[string]any{"i": z.String()}}
+								} else {
+									req["expect"] = "reject"
+								}
+								c.Add(req, "boundary.float")
+							}
+						}
+					}
+				}
+			}
 			farr := &absTy{Kind: "farr", Len: 2, Child: &absTy{Kind: "uint", M: 8}, Name: "a"}
 			tup := &absTy{Kind: "tuple", Name: "t", Comps: []*absTy{{Kind: "uint", M: 8, Name: "x"}, {Kind: "bool", Name: "y"}}}
 			for _, in := range []any{[]any{[]any{"1"}}, []any{[]any{"1", "2", "3"}}, []any{[]any{}}, []any{"1"}, []any{map[string]any{"0": "1"}}} {
@@ -297,6 +329,28 @@ func init() {
 				}
 				c.Add(map[string]any{"op": "abi.roundtrip", "params": paramsJSON(ts), "value": v, "pre": hx(pre), "post": hx(r.Bytes(r.Intn(3) * 7)), "cfgs": cfgs}, "roundtrip")
 			}
+			// integers whose low 64 bits are small (2^64, 2^64+42, 2^256-1, -(2^64), 2^53±1, 2^63): serializers that narrow
+			for _, zs := range []string{"18446744073709551616", "18446744073709551658", "115792089237316195423570985008687907853269984665640564039457584007913129639935",
+				"9007199254740991", "9007199254740992", "9007199254740993", "9223372036854775808", "9223372036854775807", "36893488147419103232", "340282366920938463463374607431768211456"} {
+				for _, neg := range []bool{false, true} {
+					t := &absTy{Kind: "uint", M: 256, Name: "big"}
+					v := zs
+					if neg {
+						if len(zs) > 77 {
+							continue
+						}
+						t = &absTy{Kind: "int", M: 256, Name: "big"}
+						v = "-" + zs
+					}
+					var cfgs []any
+					for _, cf := range allCfgs {
+						if cf["bytes"] == "hex" && cf["addr"] == "none" {
+							cfgs = append(cfgs, cf)
+						}
+					}
+					c.Add(map[string]any{"op": "abi.roundtrip", "params": paramsJSON([]*absTy{t, {Kind: "uint", M: 8, Name: "z"}}), "value": []any{map[string]any{"i": v}, map[string]any{"i": "7"}}, "pre": "", "post": "", "cfgs": cfgs}, "roundtrip.bigints")
+				}
+			}
 			if !c.Thorough() {
 				// every one of the 144 configurations at least once in the quick tier as well
 				ts := namedShapes(r)[5]
@@ -382,15 +436,15 @@ func init() {
 				o := osers[i].(map[string]any)
 				cfg := req["cfgs"].([]any)[i].(map[string]any)
 				tag := fmt.Sprintf("%v/%v/%v/%v", cfg["mode"], cfg["ints"], cfg["bytes"], cfg["addr"])
+				if rp, has := s["reparse"]; has && rp != orc["specEnc"] {
+					fs = append(fs, Finding{Kind: "violation", Region: "abi.serialize.reparse", Detail: "parsing the serialized JSON and encoding again does not reproduce the bytes for " + tag})
+				}
 				if !same(s["out"], o["out"]) {
 					fs = append(fs, Finding{Kind: "mismatch", Region: "abi.serialize", Detail: "serialized output differs from model for " + tag})
 					continue
 				}
 				if !same(o["denotes"], req["value"]) {
 					fs = append(fs, Finding{Kind: "violation", Region: "abi.serialize.denotes", Detail: "serialized JSON does not denote the value (names/order/type labels/values) for " + tag})
-				}
-				if rp, has := s["reparse"]; has && rp != orc["specEnc"] {
-					fs = append(fs, Finding{Kind: "violation", Region: "abi.serialize.reparse", Detail: "parsing the serialized JSON and encoding again does not reproduce the bytes for " + tag})
 				}
 			}
 			return fs
